@@ -54,6 +54,12 @@ def strJoin (parts : List OStr) : OStr := some (parts.flatMap fun p => p.getD []
 /-- `extension[-3:]` -/
 def strLast3 (x : OStr) : OStr := x.map fun e => e.drop (e.length - 3)
 
+/-- `x.endswith(s)` -/
+def strEndsWith (x s : OStr) : Bool :=
+  match x, s with
+  | some a, some b => decide (b.length ≤ a.length) && a.drop (a.length - b.length) == b
+  | _, _ => false
+
 /-- `extension[-3:] == ".gz"` -/
 def strEndsGz (x : OStr) : Bool := match x with
   | none => false
